@@ -243,7 +243,12 @@ def run(ctx):
 
             def cpol(name, args, kwargs, node):
                 if name == "_arctan2":
-                    calls.append((scalar(args[0]), scalar(args[1])))
+                    # (an atom per distinct pair of arguments: which call comes first, or how often, does not matter)
+                    y_, x_ = scalar(args[0]), scalar(args[1])
+                    for k_, (yy_, xx_) in enumerate(calls):
+                        if yy_.equals(y_) and xx_.equals(x_):
+                            return Rat.atom("_arctan2#%d" % (k_ + 1))
+                    calls.append((y_, x_))
                     return Rat.atom("_arctan2#%d" % len(calls))
                 return NotImplemented
 
@@ -260,18 +265,27 @@ def run(ctx):
             return calls, O, bands
         Uw = Arr([[x for x in row] for row in Ue])
         calls, O, bands = run_branch(Uw.copy())
-        ok = O is not None and O.shape == (3,) and len(calls) == 2
+        def call_of(v_):
+            """(index, (y, x)) of the _arctan2 call whose result v_ is, or None"""
+            a_ = single_atom(scalar(v_)) if v_ is not None else None
+            if a_ is None or not a_.startswith("_arctan2#"):
+                return None
+            k_ = int(a_.split("#")[1])
+            return k_, calls[k_ - 1]
+        ok = O is not None and O.shape == (3,) and call_of(O.data[0]) is not None and call_of(O.data[2]) is not None \
+            and call_of(O.data[0])[0] != call_of(O.data[2])[0]
+        k1 = k2 = None
         if ok:
             PHIv = scalar(O.data[1])
             okPHI = PHIv.equals(N.ref("arccos(x)", {"x": cP}))
             ctx.check(okPHI, "C03:euler-inv:%s.PHI" % short,
                       "PHI is %s, not arccos of the entry where euler_to_u writes cos(PHI)" % N.short(PHIv), where)
-            (y1, x1), (y2, x2) = calls
-            ctx.check(y1.equals(sP * s1) and x1.equals(sP * c1) and scalar(O.data[0]).equals(Rat.atom("_arctan2#1")),
+            (k1, (y1, x1)), (k2, (y2, x2)) = call_of(O.data[0]), call_of(O.data[2])
+            ctx.check(y1.equals(sP * s1) and x1.equals(sP * c1),
                       "C03:euler-inv:%s.phi1" % short,
                       "phi1 = _arctan2(%s, %s): not sin(PHI)*(sin phi1, cos phi1)" % (N.short(y1), N.short(x1)), where,
                       sample={"reader": "u_to_euler general branch", "phi1 args": [N.short(y1), N.short(x1)]})
-            ctx.check(y2.equals(sP * s2) and x2.equals(sP * c2) and scalar(O.data[2]).equals(Rat.atom("_arctan2#2")),
+            ctx.check(y2.equals(sP * s2) and x2.equals(sP * c2),
                       "C03:euler-inv:%s.phi2" % short,
                       "phi2 = _arctan2(%s, %s): not sin(PHI)*(sin phi2, cos phi2)" % (N.short(y2), N.short(x2)), where)
         else:
@@ -281,10 +295,10 @@ def run(ctx):
             sub = {"cos(PHI)": Rat.const(cval), "sin(PHI)": Rat.const(0)}
             Ug = Arr([[x.subs(sub) for x in row] for row in Ue])
             gcalls, Og, _b = run_branch(Ug)
-            okg = Og is not None and Og.shape == (3,) and len(gcalls) == 1 and scalar(Og.data[2]).is_zero() \
-                and scalar(Og.data[0]).equals(Rat.atom("_arctan2#1"))
+            a0_ = single_atom(scalar(Og.data[0])) if Og is not None and Og.shape == (3,) else None
+            okg = a0_ is not None and a0_.startswith("_arctan2#") and scalar(Og.data[2]).is_zero()
             if okg:
-                y, x = gcalls[0]
+                y, x = gcalls[int(a0_.split("#")[1]) - 1]
                 # sin/cos of (phi1 + sign*phi2)
                 want_y = s1 * c2 + sign * c1 * s2
                 want_x = c1 * c2 - sign * s1 * s2
@@ -295,10 +309,10 @@ def run(ctx):
         # wraps: a negative arctangent is returned increased by 2 pi
         okw, detail = True, []
         if ok:
-            for k, pos in ((1, 0), (2, 2)):
+            for k, other, pos in ((k1, k2, 0), (k2, k1, 2)):
                 _c, On, _b = run_branch(Uw.copy(), neg={"_arctan2#%d" % k})
                 good = On is not None and On.shape == (3,) and scalar(On.data[pos]).equals(Rat.atom("_arctan2#%d" % k) + 2 * N.PI) \
-                    and scalar(On.data[2 - pos]).equals(Rat.atom("_arctan2#%d" % (3 - k)))
+                    and scalar(On.data[2 - pos]).equals(Rat.atom("_arctan2#%d" % other))
                 detail.append(N.short(scalar(On.data[pos])) if On is not None and On.shape == (3,) else "?")
                 okw = okw and good
         ctx.check(bool(ok and okw), "C03:range:%s.wraps" % short,
